@@ -199,13 +199,17 @@ def dirOK (n : Bytes) : Bool :=
   n == baseDir || (List.range' 1 9).any (fun e => n == exName e) ||
   (!n.contains 46 && match n with | _ :: _ :: c :: _ => !isDigit c | _ => false)
 
+/-- every directory name is admissible and every index file of the expansions 0..9, chunks
+0..254 (the ones lookup can name) is well-formed -/
 def Archive.WF (a : Archive) : Prop :=
-  (∀ n ∈ a.dirs, dirOK n = true) ∧ ∀ e c ch k, (a.slot e c ch k).wf = true
+  (∀ n ∈ a.dirs, dirOK n = true) ∧ ∀ e c ch k, e < 10 → ch < 255 → (a.slot e c ch k).wf = true
 
 /-- a disk (directory below sqpack, file name) ↦ content realises the archive when every index
-file name holds exactly what the archive says (other files — dat, version files — are free) -/
+file name of the expansions 0..9, chunks 0..254 holds exactly what the archive says (other files —
+dat files, version files, anything else — are free) -/
 def Realises (disk : Bytes → Bytes → Option Bytes) (a : Archive) : Prop :=
-  ∀ e c ch k, disk (repoDir e) (indexName a.platform e c ch k) = (a.slot e c ch k).bytes
+  ∀ e c ch k, e < 10 → ch < 255 →
+    disk (repoDir e) (indexName a.platform e c ch k) = (a.slot e c ch k).bytes
 
 /-! ### what is stored, and where -/
 
